@@ -16,15 +16,6 @@ def PostErr (g : Graph) (d : DenCfg) : Task → Err → Prop
   | .req n r, e => interpReq (ctxOf g d n) r = .error e
   | .reqs n rsRev _, e => interpReqs (ctxOf g d n) rsRev.reverse = .error e
 
-theorem den_absent (g : Graph) (d : DenCfg) (n : Nat) (h : g.nodes[n]? = none) :
-    den g d n = ⟨.error .internal, .error .internal⟩ := by
-  have hlen : (denAll g d).length = g.nodes.length := by
-    simp [denAll, denFrom_length]
-  have : (denAll g d)[n]? = none := by
-    rw [List.getElem?_eq_none_iff] at h ⊢
-    omega
-  simp only [den, List.getD_eq_getElem?_getD, this, Option.getD_none]
-
 /-- a node without an edge that is not a used input denotes an internal error -/
 theorem den_leaf (g : Graph) (d : DenCfg) (n : Nat) (he : (g.node n).edge = none) (hin : g.inputs.contains n = false) :
     den g d n = ⟨.error .internal, .error .internal⟩ := by
